@@ -25,9 +25,15 @@ let bound n = 2 * log2 (n + 1) + 2
 
 let opt_key = function Some k -> string_of_n k | None -> "-"
 
+(* "huge" mode (10^5 keys): the extracted association-list ideal is quadratic, so the ideal object is OCaml's
+   stdlib Map over the unsigned key order; the ledger token is the constant L=0,0,0 (real allocator in C). *)
+module M = Map.Make (struct type t = int64 let compare = Int64.unsigned_compare end)
+
 let run (lines : string list) =
   let st = ref None and a = ref (alloc_init [] limit) and spec = ref ([], None) in
   let cmp = ref (cmp_of "num") and full = ref true and pool = ref [] and isset = ref false in
+  let huge = ref false and hm = ref M.empty in
+  let ledger a = if !huge then " L=0,0,0" else ledger a in
   let tstep t o = ok (tt_step !cmp t !a o) in
   (* observation through the model's public functions *)
   let obs_of ~size ~elems ~first ~last ~gt ~lt ~rb ~bal =
@@ -47,6 +53,7 @@ let run (lines : string list) =
       ~gt:(q (fun k -> OGreater k)) ~lt:(q (fun k -> OLesser k))
       ~rb:(if !full then (if rb_inv_b !cmp t.tt_tree then 1 else 0) else 1) ~bal in
   let ideal_obs () =
+    if !huge then Printf.sprintf " | size=%d bal=1" (M.cardinal !hm) else
     let (l, _) = !spec in
     let q mk k = match spec_step !cmp !spec (mk k) with (((CC_OK, [x]), _)) -> Some x | _ -> None in
     obs_of ~size:(string_of_int (List.length l)) ~elems:(if !full then l else [])
@@ -58,7 +65,7 @@ let run (lines : string list) =
     if i = 0 then begin
       match tok with
       | _ :: _ :: _ :: kind :: c :: mem :: mode :: pl :: rest ->
-          cmp := cmp_of c; full := (mode = "full"); isset := (kind = "set");
+          cmp := cmp_of c; full := (mode = "full"); isset := (kind = "set"); huge := (mode = "huge"); hm := M.empty;
           pool := (if pl = "-" then [] else List.map n_of_string (String.split_on_char ',' pl));
           let plan = List.fold_left (fun acc w -> if String.length w > 5 && String.sub w 0 5 = "plan=" then String.sub w 5 (String.length w - 5) else acc) "" rest in
           let tg = if mem = "conf" then Conf else Libc in
@@ -78,6 +85,7 @@ let run (lines : string list) =
       | "END" :: _, Some s ->
           let t = table s in
           let fin = Printf.sprintf "end size=%s rb=%d" (string_of_n t.tt_size) (if rb_inv_b !cmp t.tt_tree then 1 else 0) in
+          if !huge then spec := (List.map (fun (k, v) -> (n_of_int64 k, v)) (M.bindings !hm), None);
           (match s with Tab t -> a := ok (tt_destroy t !a) | Set x -> a := ok (ts_destroy x !a));
           st := None;
           Printf.printf "%s |%s ## end size=%d rb=1 |\n" fin (ledger !a) (List.length (fst !spec))
@@ -107,8 +115,23 @@ let run (lines : string list) =
              | Tab t, _ -> let ((out, t'), a') = ok (tt_step !cmp t !a o) in a := a'; (out, Tab t')
              | _ -> failwith "kind") in
           (* the ideal map has no allocator: a refused allocation is reported as such and must leave it unchanged *)
+          let huge_step o =
+            let key k = int64_of_n k in
+            (match o with
+             | OAdd (k, v) -> hm := M.add (key k) v !hm; (CC_OK, [])
+             | OGet k -> (match M.find_opt (key k) !hm with Some v -> (CC_OK, [v]) | None -> (CC_ERR_KEY_NOT_FOUND, []))
+             | OContainsKey k -> (CC_OK, [if M.mem (key k) !hm then n_of_int 1 else N0])
+             | ORemove k -> (match M.find_opt (key k) !hm with
+                             | Some v -> hm := M.remove (key k) !hm; (CC_OK, [v]) | None -> (CC_ERR_KEY_NOT_FOUND, []))
+             | ORemoveFirst -> (match M.min_binding_opt !hm with
+                                | Some (k, v) -> hm := M.remove k !hm; (CC_OK, [v]) | None -> (CC_ERR_KEY_NOT_FOUND, []))
+             | ORemoveLast -> (match M.max_binding_opt !hm with
+                               | Some (k, v) -> hm := M.remove k !hm; (CC_OK, [v]) | None -> (CC_ERR_KEY_NOT_FOUND, []))
+             | OSize -> (CC_OK, [n_of_int (M.cardinal !hm)])
+             | _ -> failwith "operation not available in huge mode") in
           let ((s2, v2), sp') =
             if out.o_st = CC_ERR_ALLOC then ((CC_ERR_ALLOC, []), !spec)
+            else if !huge then (huge_step o, !spec)
             else (match so with Some so -> ts_spec_step !cmp !spec so | None -> spec_step !cmp !spec o) in
           spec := sp';
           st := Some s';
